@@ -147,6 +147,10 @@ func Pick(n int) int {
 	return v
 }
 
+// Param returns a bound parameter that depends on the tier (quick/thorough);
+// the value used is recorded so that replays use the same bound.
+func Param(name string, quick, thorough int) int { return int(next("param").V) }
+
 // Len returns a concrete length in 0..max; the engine forks max+1 ways.
 func Len(max int) int { return Pick(max + 1) }
 
